@@ -78,6 +78,21 @@ Theorem c12_custom_section_bytes_round_trip :
   forall (c : wcsec) (b : list N), enc_custom c = Some b -> wf_custom c = true -> dec_custom b = Some c.
 Proof. exact dec_enc_custom. Qed.
 
+
+(* ================================================================== raw custom sections are BLOCKS OF THE OUTPUT BYTES (Proofs/BytesEnd.v): the output is the
+   magic, walrus's own framed sections, then the framed raw custom sections of the input - each once, in input order, byte for byte *)
+From WV Require Import Proofs.BytesEnd.
+Theorem c12_raw_custom_sections_are_blocks_of_the_output_bytes :
+  forall (cf : config) (ver : str) (ilen : wins -> N) (bs b1 : list N) (w : wmod),
+    dec_wmod false bs = Some w -> roundtrip_bytes cf ver ilen bs = Some b1 ->
+    exists own : list (N * list N), b1 = (magic_version ++ flat_map frame_section (own ++ map raw_frame (CustomsCfg.raw_customs w)))%list /\ Forall own_frame own.
+Proof. exact raw_customs_bytes_preserved. Qed.
+Theorem c12_every_raw_custom_section_occurs_in_the_output_bytes :
+  forall (cf : config) (ver : str) (ilen : wins -> N) (bs b1 : list N) (w : wmod) (name : str) (data payload : list N),
+    dec_wmod false bs = Some w -> roundtrip_bytes cf ver ilen bs = Some b1 ->
+    In (S_Custom (CS_Raw name data)) w -> enc_custom (CS_Raw name data) = Some payload -> exists pre post : list N, b1 = (pre ++ frame_section (0%N, payload) ++ post)%list.
+Proof. exact raw_custom_block_in_output. Qed.
+
 Print Assumptions c12_roundtrip.
 Print Assumptions c12_gc.
 Print Assumptions c12_emit_keeps_module.
@@ -91,3 +106,5 @@ Print Assumptions c12_custom_name_and_data_recovered_any_length_encoding.
 Print Assumptions c12_one_byte_offset_right_below_128.
 Print Assumptions c12_one_byte_offset_refuted.
 Print Assumptions c12_custom_section_bytes_round_trip.
+Print Assumptions c12_raw_custom_sections_are_blocks_of_the_output_bytes.
+Print Assumptions c12_every_raw_custom_section_occurs_in_the_output_bytes.
